@@ -42,6 +42,7 @@ type Interp struct {
 	cur      *Goroutine
 	gSeq     int
 	yieldReq bool
+	goschedReq bool // runtime.Gosched: run the next runnable goroutine (round robin)
 	yieldNext *Goroutine
 
 	// per-path state
